@@ -331,6 +331,10 @@ def step1 (fo : FloatOps) (fuel : Nat) (s : St) (op : Json) : E (St × Json) := 
     refusable do
       let h' ← if name == "set_freq" then h.setFreq vals k else h.setErr2 vals k
       pure (s.set r h', Json.str "ok")
+  | "set_meta" | "append_meta" =>
+    -- meta-data edits: the model's histograms carry no meta data (values): nothing changes
+    let _ ← s.get (← reg "h")
+    pure (s, Json.str "ok")
   | "copy" =>
     let h ← s.get (← reg "h")
     pure (s.set (← reg "out") (h.copy (getBoolD op "with_freq" true)), Json.str "ok")
